@@ -111,6 +111,8 @@ func execute(h harness, ch sched.Chooser) execResult {
 		res.outcome, res.detail = "panic_in_thread", strings.Join(s.Panics, "; ")
 	case s.Deadlock:
 		res.outcome, res.detail = "deadlock", strings.Join(s.Blocked, "; ")
+	case s.Livelock:
+		res.outcome, res.detail = "livelock", "only threads that keep re-reading an unchanged atomic location were left, 64 times in a row"
 	case src.concurrent:
 		res.outcome, res.detail = "two_goroutines_inside_generator", "the shared generator was entered by a second goroutine while another one was inside it (a data race on the real generator)"
 	case src.counter != 2*total:
